@@ -74,6 +74,15 @@ def zone_midpoint_check(zone, cm, P):
         else:
             auto_utm, cm_utm = auto_split[1], cm_split[1]
             arg = fn_parts(auto_utm, 'int')
+            shift = C(0)
+            if arg is None:
+                # zone = int(u) + c
+                ints = [alg.TABLE.atoms[k] for k in auto_utm.atoms(deep=False) if alg.TABLE.atoms[k].kind == 'fn' and alg.TABLE.atoms[k].name == 'int']
+                if len(ints) == 1:
+                    rest = auto_utm - Rat.atom(ints[0])
+                    if rest.as_fraction() is not None:
+                        arg = ints[0].args
+                        shift = rest
             if arg is None:
                 out.append(('utm', 'undecided', 'automatic zone is not int(<affine in lon>)', None, alg.fmt(auto_utm)))
             else:
@@ -85,8 +94,8 @@ def zone_midpoint_check(zone, cm, P):
                 else:
                     p, q = pq
                     z = Rat.sym('z')
-                    lo = (z - q) / p
-                    hi = (z + C(1) - q) / p
+                    lo = (z - shift - q) / p
+                    hi = (z - shift + C(1) - q) / p
                     mid = (lo + hi) * C(alg.Fraction(1, 2))
                     cm_of_z = alg.subst(cm_utm, {zat.id: z})
                     r = alg.decide_equal(mid, cm_of_z)
